@@ -249,8 +249,12 @@ class StrInterp:
                     for x in args[0]:
                         out += x.toks if isinstance(x, Seq) else (x,)
                     return Seq(out)
-            if f.attr == 'replace' and isinstance(recv, Seq) and len(args) == 2:
-                a, b = args
+            if f.attr == 'replace' and isinstance(recv, Seq) and len(args) in (2, 3):
+                a, b = args[0], args[1]
+                if len(args) == 3:
+                    # a bounded replacement equals the full one when the letter occurs at most `count` times
+                    if not (isinstance(args[2], int) and isinstance(a, Letter) and sum(1 for t in recv.toks if t == a) <= args[2]):
+                        return Opaque('bounded replace')
                 if isinstance(a, str) and a == '...':
                     return Opaque('ellipsis removed')  # letter-only view: not a string of the result
                 if isinstance(a, str) and len(a) == 1:
